@@ -21,6 +21,8 @@ CHECKS = {
             'input values from one deterministic table; N <= 13 samples; quick tier covers torch/jax/fortran on a slice only', EXPL, 'DESIGN.md 3 C08'),
     'C09': ('exploration', 'ramp sources x 1-3 targets x per-edge delay in {none, 2dt, 3dt, 2.4dt, 2.6dt, 5dt} over shared-source, parallel, shared-target and feedback topologies x vectorize: every euler trajectory of run() compared row by row with the reference recurrence with explicit history (src[k-D], zero before start, undelayed edges read src[k])',
             'delays below two steps are outside the property; Connectivity (matrix) delays are covered by C16; one dt', EXPL, 'DESIGN.md 3 C09'),
+    'C13': ('model_checking', 'breadth-first search over all sequences (depth 2 quick, 3 thorough) of an operation alphabet of 50 public API calls on 7 models engineered to collide (same operator name, same structure, shared NodeTemplate object, YAML cache, edges+inputs); every history replayed on the real code from the import-time state, states hashed over all module-level containers + working directory + stored templates; every op must observe what it observes as the first op of a pristine interpreter, and functions returned earlier are re-evaluated after every step',
+            'histories longer than the bound; Fortran file-name re-use is not explored; worker reset is cross-checked against fresh interpreters on every run', MC, 'DESIGN.md 3 C13'),
     'C19': ('model_checking', 'explicit-state search of all update sequences up to depth 6/7 on the real DDEHistory class, every query of a lattice checked in every state against a list-based reference',
             'values outside the finite alphabets (3 deltas, 3 y vectors, 3 shapes, 3 dtypes) and sequences longer than the bound are not covered, except one 3000-step run through the real capacity', MC, 'DESIGN.md 3 C19'),
 }
